@@ -45,7 +45,14 @@ ScAFM ==
    springs |-> (<<1,2,4>> :> <<5,1>>) @@ (<<1,1,4>> :> <<3,1>>) @@ (<<2,2,4>> :> <<3,1>>)
                @@ (<<1,2,8>> :> <<1,0>>) @@ (<<1,1,8>> :> <<2,0>>) @@ (<<2,2,8>> :> <<2,0>>)]
 
-MoreEntries == <<ZnS, OrthoC, OrthoA, RhombH, BccAFM, ScAFM>>
+(* simple cubic with spring constants spread over six decades in ONE model (realised with the      *)
+(* scale 1e-6: force constants from 1e-6 to 1)                                                     *)
+ScWide ==
+  [name |-> "scwide", G |-> Cubic, D |-> 1, reach |-> 3,
+   atoms |-> <<At(1, <<0,0,0>>, 4)>>,
+   springs |-> (<<1,1,1>> :> <<1000000, 1000>>) @@ (<<1,1,2>> :> <<1000, 0>>) @@ (<<1,1,3>> :> <<1, 0>>)]
+
+MoreEntries == <<ZnS, OrthoC, OrthoA, RhombH, BccAFM, ScAFM, ScWide>>
 EntryOf(n) ==
   IF n \in Names THEN EntryByName(n)
   ELSE MoreEntries[CHOOSE i \in 1..Len(MoreEntries) : MoreEntries[i].name = n]
